@@ -60,7 +60,7 @@ type c11Conn struct {
 
 func checkC11(ctx *Ctx) {
 	ctx.Rule("one evaluation = one history over 3 connections and the users default/u1/u2: ACL SETUSER with password and enable/disable tokens, ACL DELUSER (including default), AUTH with one and two arguments (right, wrong, hashed-form and other users' passwords), HELLO ... AUTH, " +
-		"ACL SAVE, ACL LOAD MERGE|REPLACE, restart on the saved JSON/YAML file, new connections; after every step every connection is probed (ACL WHOAMI and a GET) and the outcome must be the one the reference user table and the per-connection identity predict. " +
+		"ACL SAVE, ACL LOAD MERGE|REPLACE, restart on the saved JSON/YAML file, new connections (plus: restricted rules saved by one server and taken in by another through ACL LOAD and through a start-up, compared decision by decision on a fixed probe set); after every step every connection is probed (ACL WHOAMI and a GET) and the outcome must be the one the reference user table and the per-connection identity predict. " +
 		"distinct_nontrivial = distinct (step kind, expected outcome, user state class) classes")
 	ctx.Assume("the probe user rules are maximally permissive (allCategories allCommands allKeys), so a probe fails exactly when the connection is unauthenticated or its user is disabled or deleted",
 		"rule equality after SAVE/LOAD/restart is behavioural: the same AUTH outcomes and probe outcomes")
@@ -76,6 +76,144 @@ func checkC11(ctx *Ctx) {
 		ctx.SetCurrent(fmt.Sprintf("C11 history %d seed %d", i, ctx.Seed))
 		c11History(ctx, i)
 	}
+	for i := 0; i < ctx.N(24, 96); i++ {
+		if ctx.Mine(i) {
+			ctx.SetCurrent(fmt.Sprintf("C11 rules across servers %d", i))
+			c11AcrossServers(ctx, i)
+		}
+	}
+}
+
+// c11AcrossServers: "ACL SAVE followed by ACL LOAD or a restart reproduces the same users and rules" — also
+// when the file comes from another server. Server A gives a user restricted rules (key and channel
+// patterns spelled so that server B has never seen them) and saves them; server B, which was started
+// before the file existed, takes them in with ACL LOAD MERGE / REPLACE, and a third server C is started on
+// the file. The same fixed probe set, sent by a connection authenticated as that user, must get the same
+// decision (executed / refused as unauthorised / other error) on B and C as on A.
+func c11AcrossServers(ctx *Ctx, i int) {
+	root := mkScratch("c11x")
+	defer os.RemoveAll(root)
+	ext := []string{".json", ".yaml"}[i%2]
+	mode := []string{"MERGE", "REPLACE"}[(i/2)%2]
+	aclFile := filepath.Join(root, "acl"+ext)
+	tag := fmt.Sprintf("x%d", i)
+	rules := [][]string{
+		{"on", ">pw", "allCategories", "allCommands", "%R~" + tag + "r:*", "%W~" + tag + "w:*", "%RW~" + tag + "rw:*", "allChannels"},
+		{"on", ">pw", "allCategories", "allCommands", "~" + tag + "rw:*", "+&" + tag + "ch:*"},
+		{"on", ">pw", "allCategories", "allCommands", "allKeys", "allChannels", "-&" + tag + "ch:x"},
+		{"on", "nopass", "+@read", "+@fast", "+@slow", "+@keyspace", "+@string", "+@connection", "+@pubsub", "allCommands", "%R~" + tag + "r:*", "+&" + tag + "ch:?"},
+	}[(i/4)%4]
+	probes := [][]string{
+		{"GET", tag + "r:1"}, {"GET", tag + "w:1"}, {"GET", tag + "rw:1"}, {"GET", "other"},
+		{"SET", tag + "r:1", "v"}, {"SET", tag + "w:1", "v"}, {"SET", tag + "rw:1", "v"}, {"SET", "other", "v"},
+		{"MGET", tag + "r:1", tag + "rw:1"}, {"MGET", tag + "r:1", "other"},
+		{"PUBLISH", tag + "ch:1", "m"}, {"PUBLISH", tag + "ch:x", "m"}, {"PUBLISH", "elsewhere", "m"},
+		{"PING"}, {"ACL", "WHOAMI"},
+	}
+	type server struct {
+		in   *Inst
+		port int
+	}
+	start := func() *server {
+		port := freePort()
+		in, err := NewInst(InstOpts{Extra: append(withTCP(port), sugardb.WithAclConfig(aclFile), sugardb.WithRequirePass(true), sugardb.WithPassword("adminpw"))})
+		if err != nil {
+			return nil
+		}
+		if err := in.StartTCP(port); err != nil {
+			in.Close()
+			return nil
+		}
+		return &server{in, port}
+	}
+	decide := func(s *server) ([]string, string) {
+		c, err := Dial(s.port)
+		if err != nil {
+			return nil, "dial"
+		}
+		defer c.Close()
+		pw := "pw"
+		if v, _, err := c.Do("AUTH", "ux", pw); err != nil || v.IsError() {
+			return nil, "AUTH ux pw -> " + v.String()
+		}
+		var out []string
+		for _, p := range probes {
+			v, _, err := c.Do(p...)
+			switch {
+			case err != nil:
+				return nil, "connection lost at " + Step{Argv: p}.String()
+			case !v.IsError():
+				out = append(out, "executed")
+			case strings.Contains(strings.ToLower(v.Str), "authori"):
+				out = append(out, "refused")
+			default:
+				out = append(out, "error: "+trunc(v.Str, 80))
+			}
+		}
+		return out, ""
+	}
+	b := start() // B exists before the file does
+	if b == nil {
+		ctx.Inconclusive("across-servers: server did not start")
+		return
+	}
+	defer b.in.Close()
+	a := start()
+	if a == nil {
+		ctx.Inconclusive("across-servers: server did not start")
+		return
+	}
+	if v, _, crash := a.in.Do(append([]string{"ACL", "SETUSER", "ux"}, rules...)...); crash != "" || v.IsError() {
+		a.in.Close()
+		ctx.Inconclusive("across-servers: SETUSER refused")
+		return
+	}
+	want, why := decide(a)
+	a.in.Do("ACL", "SAVE")
+	a.in.Close()
+	if why != "" {
+		ctx.Inconclusive("across-servers: reference decisions: " + why)
+		return
+	}
+	check := func(s *server, how string) {
+		got, why := decide(s)
+		ctx.Eval(1)
+		ctx.Class(fmt.Sprintf("across-servers|%s|%s|rules%d", how, ext, (i/4)%4))
+		if why == "" && fmt.Sprint(got) == fmt.Sprint(want) {
+			return
+		}
+		diff := why
+		for k := range want {
+			if why == "" && got[k] != want[k] {
+				diff = fmt.Sprintf("%s is %s where the server that saved the rules says %s", Step{Argv: probes[k]}.String(), got[k], want[k])
+				break
+			}
+		}
+		ctx.Violate(Violation{Kind: "rules_not_reproduced", Lane: "across-servers",
+			What: fmt.Sprintf("user ux with rules %v saved by one server (%s) and taken in by another through %s: %s", rules, ext, how, diff),
+			Case: map[string]interface{}{"rules": rules, "file": ext, "how": how, "probes": probes, "want": want, "got": got}, Key: "c11|across-servers|" + how})
+	}
+	admin, err := Dial(b.port)
+	if err != nil {
+		ctx.Inconclusive("dial")
+		return
+	}
+	defer admin.Close()
+	admin.Do("AUTH", "adminpw")
+	if v, _, err := admin.Do("ACL", "LOAD", mode); err != nil || v.IsError() {
+		ctx.Violate(Violation{Kind: "load", Lane: "across-servers", What: fmt.Sprintf("ACL LOAD %s of a file saved by another server failed: %v %s", mode, err, v.String()),
+			Case: map[string]interface{}{"rules": rules, "file": ext}, Key: "c11|across-servers|load-failed"})
+		return
+	}
+	check(b, "ACL LOAD "+mode)
+	c := start()
+	if c == nil {
+		ctx.Violate(Violation{Kind: "startup", Lane: "across-servers", What: "a server did not start on the ACL file saved by another server",
+			Case: map[string]interface{}{"rules": rules, "file": ext}, Key: "c11|across-servers|start-failed"})
+		return
+	}
+	defer c.in.Close()
+	check(c, "restart on the file")
 }
 
 func c11History(ctx *Ctx, hi int) {
